@@ -28,8 +28,11 @@ OUTCOME_OF = {"success": "addSuccess", "skip": "addSkip", "fail": "addFailure",
               "xfail": "addExpectedFailure", "uxsuccess": "addUnexpectedSuccess"}
 
 
-def reference(events):
-    """Segment the stream per (test_id, route_code).  Returns (finals in order, flushed)."""
+def reference(events, eof_closes=False):
+    """Segment the stream per (test_id, route_code).  Returns (finals in order, flushed).
+
+    ``eof_closes``: the documented reading of ``eof`` ("any additional chunks with the same name should be
+    treated as an error and discarded") instead of plain concatenation; the statement allows both."""
     open_ = collections.OrderedDict()
     finals = []
     for ev in events:
@@ -40,14 +43,16 @@ def reference(events):
         if rec is None:
             rec = open_[key] = {"id": ev["test_id"], "route": ev["route_code"], "status": "unknown",
                                 "tags": frozenset(), "files": collections.OrderedDict(),
-                                "first": ev["timestamp"], "last": None}
+                                "first": ev["timestamp"], "last": None, "closed": set()}
         if ev["test_status"] is not None:
             rec["status"] = ev["test_status"]
         rec["last"] = ev["timestamp"]
-        if ev["file_name"] is not None:
+        if ev["file_name"] is not None and not (eof_closes and ev["file_name"] in rec["closed"]):
             f = rec["files"].setdefault(ev["file_name"], {"data": b"", "mimes": set()})
             f["data"] += ev["file_bytes"]
             f["mimes"].add(ev["mime_type"])
+            if ev["eof"]:
+                rec["closed"].add(ev["file_name"])
         if ev["test_tags"] is not None:
             rec["tags"] = frozenset(ev["test_tags"])
         if ev["test_status"] in streams.FINAL:
